@@ -90,6 +90,10 @@ class FindOpsExceedingMemory(PlanSpec):
             op = next(iter(c.ops.values()))
             yield "canary:at-boundary-rejected", c.implies(op.projected_mem == op.allowed_mem, len(res) > 0)
 
+    def replay(self, cfg, model, ob):
+        return ("import sys\nsys.path.insert(0, '/verif')\nfrom pyvc.replay_plan import run_find_ops_exceeding\n"
+                f"reproduced, detail = run_find_ops_exceeding({dict(model)!r}, {cfg['k']})\n")
+
 
 @register
 class Validate(PlanSpec):
@@ -114,6 +118,10 @@ class Validate(PlanSpec):
         if e.etype is ValueError:
             return c.cfg["k"] > 0
         return None
+
+    def replay(self, cfg, model, ob):
+        return ("import sys\nsys.path.insert(0, '/verif')\nfrom pyvc.replay_plan import run_validate\n"
+                f"reproduced, detail = run_validate({dict(model)!r}, {cfg['k']})\n")
 
 
 @register
